@@ -6,7 +6,8 @@ set_mut / get at every position / rc and reverse / to_bytes / to_ascii_vec / Dis
 tables themselves being C16.1) / push_bytes (packed 2-bit runs) / ndiffs, with the string abstract and only lengths and
 positions partitioned; the writers of (storage, len) are enumerated from MIR and each is covered; the fields are private;
 Eq/Ord/Hash are derived with storage before len (lexicographic with a proper prefix first, given the invariant);
-PackedDnaStringSet::get returns the stored (start, length) forward view and add keeps its arrays in lockstep."""
+PackedDnaStringSet::get returns the stored (start, length) forward view and add keeps its arrays in lockstep.
+Added later: hashed-N table, exact to_owned lemma, white-space row of from_dna_string."""
 from .. import lemmas, dt_seq, structural, dt_strings
 
 ASSUMPTIONS = ["pushed / extended values are bases (< 4) where the code asserts it; lengths do not overflow usize"]
